@@ -786,7 +786,7 @@ func runC19(cx *CheckCtx) {
 					callerLits = append(callerLits, -id)
 				}
 			}
-			for _, s := range a.Sites(func(s *Site) bool { return strings.HasSuffix(s.Callee, ".AbortWithMessage") }) {
+			for _, s := range a.Sites(func(s *Site) bool { return isAbortSite(cx, s) }) {
 				nRej++
 				// an abort is incompatible with a documented deposit: 0 < amount ≤ 9000 GAS, caller GAS,
 				// data of 20 bytes or empty
@@ -816,7 +816,7 @@ func runC19(cx *CheckCtx) {
 			// the marked payment (the candidate fee the contract sends to itself) is never refused: no abort
 			// can be reached with data equal to the marker, whatever the amount — the fee is a setting
 			okMarked := len(markerLits) > 0
-			for _, s := range a.Sites(func(s *Site) bool { return strings.HasSuffix(s.Callee, ".AbortWithMessage") }) {
+			for _, s := range a.Sites(func(s *Site) bool { return isAbortSite(cx, s) }) {
 				for _, ml := range markerLits {
 					if a.satisfiable(s.In, []int32{ml}, nil) {
 						okMarked = false
@@ -1100,7 +1100,7 @@ func runC19(cx *CheckCtx) {
 		// converse: nothing but the token is looked at — a payment made by the accepted native contract is
 		// never refused (the fees sent here are settings: a withdrawal fee of 0 is a payment of 0)
 		okConv := true
-		for _, s := range a.Sites(func(s *Site) bool { return strings.HasSuffix(s.Callee, ".AbortWithMessage") }) {
+		for _, s := range a.Sites(func(s *Site) bool { return isAbortSite(cx, s) }) {
 			for id := int32(1); id < int32(len(a.lt.lits)); id++ {
 				l := a.lt.lits[id]
 				if l.Kind != KCaller {
@@ -1263,3 +1263,31 @@ func checkDecodeAbsent(cx *CheckCtx, a *Analysis, contract, key string) {
 }
 
 func strconvQuote(s string) string { return fmt.Sprintf("%q", s) }
+
+// isAbortSite: the site is a refusal by ABORT: util.Abort itself or the helper of common that ends in it
+// (found by that shape, whatever its name).
+func isAbortSite(cx *CheckCtx, s *Site) bool {
+	if s.Callee == "util.Abort" {
+		return true
+	}
+	h := abortHelper(cx)
+	return h != nil && s.Callee == fq(h)
+}
+
+var abortHelperCache = map[*World]*ssa.Function{}
+
+func abortHelper(cx *CheckCtx) *ssa.Function {
+	if f, ok := abortHelperCache[cx.W]; ok {
+		return f
+	}
+	var ab *ssa.Function
+	if p := cx.W.ByPath[modPrefix+"common"]; p != nil {
+		for _, f := range allFuncs(cx.W.Prog.Package(p.Types)) {
+			if f.Blocks != nil && directCallees(f)["util.Abort"] > 0 {
+				ab = f
+			}
+		}
+	}
+	abortHelperCache[cx.W] = ab
+	return ab
+}
